@@ -49,3 +49,29 @@ func VxH_C14_metadata() {
 		vx.Assert("other-names-ignored", len(md.Keywords) == 0 && md.Description == "" && len(md.Authors) == 0)
 	}
 }
+
+// dcterms.created / dcterms.modified: the time zone designator ±hh:mm gives an offset of that
+// sign and that many hours and minutes.
+func VxH_C14_w3c_date() {
+	neg := vx.Choose("sign", 2) == 1
+	h := []int{0, 1, 5, 11}[vx.Choose("tz-hours", 4)]
+	m := []int{0, 15, 30, 45}[vx.Choose("tz-minutes", 4)]
+	if h == 0 && m == 0 {
+		return // UTC (time.UTC is set by the initialiser of package time, which the engine does not run)
+	}
+	two := func(n int) string { return string([]byte{byte('0' + n/10), byte('0' + n%10)}) }
+	sign := "+"
+	if neg {
+		sign = "-"
+	}
+	t, err := parseW3cDate("dcterms.created", "2011-04-05T12:30:00"+sign+two(h)+":"+two(m))
+	vx.Reach("parsed")
+	vx.Assert("date-accepted", err == nil)
+	_, offset := t.Zone()
+	want := h*3600 + m*60
+	if neg {
+		want = -want
+	}
+	vx.Assert("time-zone-offset", offset == want)
+	vx.Assert("wall-clock-kept", t.Hour() == 12 && t.Minute() == 30 && t.Day() == 5)
+}
